@@ -70,6 +70,10 @@ fn install_panic_hook() {
         } else {
             // a panic of the harness itself: make it visible on the saved stderr if any
             let _ = std::fs::OpenOptions::new().append(true).create(true).open("/dev/shm/tftpd-sim-harness-panics.log").and_then(|mut f| writeln!(f, "harness panic: {msg} @ {loc}"));
+            // a bug of the harness, not a verdict about the code under test: distinctive exit code
+            if loc.contains("sim/src/") || loc.starts_with("src/") {
+                std::process::exit(70);
+            }
         }
     }));
 }
